@@ -461,7 +461,10 @@ func TestVerifC02(t *testing.T) {
 			iss:    []string{"ok", "ok", "fail", "flaky"}[rng.Intn(4)],
 		}
 		if strings.HasPrefix(c.state, "wild-cached") {
-			c.ari = false
+			// (a cached wildcard serving the name is exercised by the product of single handshakes; in a
+			// HISTORY the first handshake obtains a certificate for the name itself next to it, a
+			// situation the effect program does not follow)
+			c.state = "cached-window-nostore"
 		}
 		steps := 2 + rng.Intn(3)
 		flips := make([]int, steps)
